@@ -219,6 +219,11 @@ def gen_tables(ctx):
     if rc != 0:
         ctx.violation("frontend-gen", "unitdrv frontend could not read InvokeHandler's error switch from cmd/aws-lambda-rie/handlers.go", out[-3000:], found_input=False, tag="gen")
         return False
+    # the route table, read from lambda/rapi/router.go + server.go
+    rc, out = C.run([os.path.join(C.BUILD, "unitdrv"), "routes", "-repo", C.REPO, "-dir", os.path.join(C.LEAN, "Rie", "Gen")], timeout=120)
+    if rc != 0:
+        ctx.violation("routes-gen", "unitdrv routes could not read the route table from lambda/rapi/router.go / server.go", out[-3000:], found_input=False, tag="gen")
+        return False
     return True
 
 
